@@ -62,7 +62,10 @@ func c34Gen(g *Gen) {
 			switch x := r.Intn(100); {
 			case x < 50:
 				var sz int
-				switch r.Intn(6) {
+				switch r.Intn(7) {
+				case 6:
+					// huge requests: signed/unsigned overflow boundaries of offset+size
+					sz = Pick(r, []int{1 << 62, 1<<63 - 1, 1<<63 - 65536, 1<<63 - 65537, 1<<63 - 65536 - dataSize, 1<<63 - 1 - 65536 - r.Range(0, dataSize), 1 << 40, -(1 << 62)})
 				case 0:
 					sz = r.Range(-2, 1)
 				case 1:
